@@ -544,8 +544,9 @@ func checkC07(p *Prog, r *Report) {
 	okK := false
 	if initK != nil {
 		for _, cs := range findCalls(initK, "x/burn/keeper.NewKeeper") {
-			if args := cs.Instr.Common().Args; len(args) == 1 {
-				if f, ok := rawFieldLoad(args[0]); ok && f == "BankKeeper" {
+			// the bank-capable argument of the constructor (whatever its position) is the application's bank keeper
+			for _, a := range cs.Instr.Common().Args {
+				if f, ok := rawFieldLoad(a); ok && f == "BankKeeper" {
 					okK = true
 				}
 			}
